@@ -128,6 +128,19 @@ fn div_body<const B: usize, const L: usize>() {
         let cand = big::add(&big::mul(&lim(&q0), &lim(&d)), &r);
         if big::fits(&cand, B) { n = mk::<B, L>(&cand); }
     }
+    // numerators whose limbs repeat the divisor's limbs (leading limbs equal to the divisor's leading limbs, a limb equal to a
+    // one-limb divisor ...): the limbs of n selected by the high bits of `sel` are overwritten by limbs of d
+    if sel & 12 == 4 && L > 0 {
+        let mut nl = lim(&n);
+        let dl = lim(&d);
+        let top = dl.iter().rposition(|&x| x != 0).unwrap_or(0);
+        let mut i = 0;
+        while i < L {
+            if (sel >> 4) >> (i % 4) & 1 == 1 { nl[i] = dl[if i % 2 == 0 { top } else { top.saturating_sub(1) }]; }
+            i += 1;
+        }
+        n = mk::<B, L>(&nl);
+    }
     let (wq, wr) = big::divrem(&lim(&n), &lim(&d));
     let (q, r) = n.div_rem(d);
     assert!(same(&q, &wq), "div_rem quotient == floor(n / d)");
